@@ -311,13 +311,40 @@ def classify(exc: BaseException) -> Err:
     return Err("Other_" + name)
 
 
+class CaseTimeout(Exception):
+    """one implementation run exceeded its wall-clock budget: reported as non-termination (OutOfFuel)"""
+
+
+CASE_TIMEOUT_S = float(os.environ.get("VERIF_CASE_TIMEOUT", "20"))
+
+
+def _alarm(signum, frame):  # pragma: no cover - only fires on a runaway implementation
+    raise CaseTimeout()
+
+
 def run_impl(fn: t.Callable[[t.Any], t.Any], arg: t.Any) -> str:
+    """Runs the implementation on one case under a wall-clock watchdog (a changed implementation may loop)."""
+    import signal
+    import threading
+
+    use_alarm = threading.current_thread() is threading.main_thread()
+    if use_alarm:
+        old = signal.signal(signal.SIGALRM, _alarm)
+        signal.setitimer(signal.ITIMER_REAL, CASE_TIMEOUT_S)
     try:
         return enc(fn(arg))
+    except CaseTimeout:
+        return "eOutOfFuel"
     except RecursionError:
         return "eOther_RecursionError"
+    except MemoryError:
+        return "eOutOfFuel"
     except Exception as exc:  # noqa: BLE001 - classification is the point
         return enc(classify(exc))
+    finally:
+        if use_alarm:
+            signal.setitimer(signal.ITIMER_REAL, 0)
+            signal.signal(signal.SIGALRM, old)
 
 
 # ---------------------------------------------------------------------------------------------
